@@ -70,6 +70,8 @@ fn layers(id: &str) -> (&'static str, Vec<Layer>) {
         ]),
         "C13" => ("c13", vec![
             Layer { tool: Miri, kind: "all", extra: &[("part", "mini"), ("n", "2")], quick: 0, thorough: 24 },
+            // eight named threads format one event each at the same moment (process-wide name width)
+            Layer { tool: Miri, kind: "all", extra: &[("part", "names"), ("rounds", "1")], quick: 0, thorough: 8 },
         ]),
                 "C15" => ("c15", vec![
             Layer { tool: Tsan, kind: "rand", extra: &[("runs", "6")], quick: 0, thorough: 64 },
